@@ -4,21 +4,22 @@ import sys
 sys.path.insert(0, os.path.join(os.path.dirname(os.path.abspath(__file__)), '..', 'shared'))
 import output_proofs  # noqa: E402
 import outtext_proofs  # noqa: E402
+import tokenizer_proofs  # noqa: E402
 import end_proof  # noqa: E402
 sys.path.insert(0, os.path.join(os.path.dirname(os.path.abspath(__file__)), '..', 'C03'))
 import trim_proofs  # noqa: E402
 NEED_OPTIONS = True
-PROOFS = output_proofs.select(['add_spaces', 'add_char', 'add_text_regular', 'add_text_ascii', 'output_to_column', 'cmt_output_indent', 'next_tab_column', 'calc_next_tab_column_ts*']) + [outtext_proofs.iteration_proof(), end_proof.end_proof(), trim_proofs.trim_proof()]
+PROOFS = output_proofs.select(['add_spaces', 'add_char', 'add_text_regular', 'add_text_ascii', 'output_to_column', 'cmt_output_indent', 'next_tab_column', 'calc_next_tab_column_ts*']) + tokenizer_proofs.select(['tokenize_strip']) + [outtext_proofs.iteration_proof(), end_proof.end_proof(), trim_proofs.trim_proof()]
 EXPLANATION = ('Kernel of C17: add_char() buffers blanks (cpd.spaces) and writes them only in front of a following character; a TAB after a blank is '
                'expanded to blanks when the effective indent_with_tabs (pp_indent_with_tabs inside a preprocessor line unless -1) is 0 and the text is not a literal; '
                'add_text(text) is exactly the sequence add_char(text[i]).')
-K = ['K7 cmt_trim_whitespace: the comment line handed on never ends in a blank or a tab (inside a preprocessor line it may end in the continuation backslash)', 'K1 add_char: (a) blank buffered, nothing written; (b) visible char: pending blanks then the char; (c) LF: pending blanks then one line break; (d) blanks reach the sink only via add_spaces',
+K = ['K8 tokenize() strip loop: the text of every chunk that is not disabled-region text ends without blank/tab (or in backslash + one blank, kept on purpose); only blanks/tabs are removed', 'K7 cmt_trim_whitespace: the comment line handed on never ends in a blank or a tab (inside a preprocessor line it may end in the continuation backslash)', 'K1 add_char: (a) blank buffered, nothing written; (b) visible char: pending blanks then the char; (c) LF: pending blanks then one line break; (d) blanks reach the sink only via add_spaces',
      'K2 tab-after-space guard uses the right option (pp variant only inside CT_PREPROC and unless -1)', 'K1e add_text == sequence of add_char calls',
      'K3 output_to_column(col, allow_tabs): reaches exactly max(old column, col), issues only non-literal blanks/tabs, tabs only if allow_tabs, and never a tab after a blank within the call',
      'K6 output_text (one iteration): first chunk of a line: output_to_column gets allow_tabs == false whenever the effective setting (pp_indent_with_tabs on preprocessor lines unless -1, else indent_with_tabs) is 0, tabs only up to the indent level for 1; blank-line indentation and backslash-newline columns likewise',
      'K7 uncrustify_end: per-file writer state is reset (did_newline, unc_off, in_preproc ...): the hygiene of a file does not depend on the file formatted before it',
      'K4 cmt_output_indent: same shape; with indent_cmt_with_tabs off and indent_with_tabs == 0 it issues blanks only']
-G = ['"no output line ends in a blank" additionally needs: every add_char(LF) issued by output_text happens with cpd.spaces == 0 (needs the comment writers and the chunk texts; the dispatch itself is K6) and chunk texts do not end in blanks (tokenize() strip loop, not yet under contract)',
+G = ['"no output line ends in a blank" additionally needs: every add_char(LF) issued by output_text happens with cpd.spaces == 0 (needs the comment writers and the chunk texts; the dispatch itself is K6) and chunk texts do not end in blanks: K8',
      'newlines_eat_start_end (end-of-file policy): see C20',
      'comment writers and alignment passes choose columns; callers never end a line with TAB']
 MACRO_HEADERS = ['output_macros.h']
